@@ -25,7 +25,7 @@ Inits == <<"kmeans", "random">>
 Seeds == IF Quick THEN <<1>> ELSE <<1, 7, 42>>
 Regs  == << <<0, 1>>, <<1, 1000000>>, <<1, 100>>, <<1, 2>> >>
 \* <<tolerance num, den, n_runs, max_n_iterations>>
-Cfgs  == << <<1, 1000, 1, 100>>, <<1, 1000000, 1, 200>>, <<1, 10, 2, 100>>, <<1, 1000, 1, 3>>, <<1, 1000000, 3, 4>> >>
+Cfgs  == << <<1, 1000, 1, 100>>, <<1, 1000000, 1, 200>>, <<1, 10, 2, 100>>, <<1, 1000, 1, 3>>, <<1, 1000000, 3, 4>>, <<1, 1000, 3, 5>> >>
 Fts   == <<"f64", "f32">>
 FarD  == <<10, 40, 1000, 1000000>>
 
